@@ -6,6 +6,7 @@
 -/
 import KcacheModel.Ctrl
 import KcacheModel.Proofs.Ctrl
+import KcacheModel.Proofs.CtrlWitness
 namespace KC.C04
 open KC AL
 
@@ -99,70 +100,24 @@ theorem pipeline_step_decreases_lag {w : CW K O} (h : CReach key ver acc w) (l :
     simp only [CW.step, lag, hlive]; simp
 
 end
-/-! ### the hypothesis "nothing lost" is needed: an overflow is not repaired by the watch -/
-namespace Witness
-abbrev Ob := Nat × Int
-def kk (o : Ob) : Nat := o.1
-def vv (o : Ob) : Option Int := some o.2
-def aa (_ : Ob) : Bool := true
-
-def w0 : CW Nat Ob := {}
-def w1 := w0.step kk vv aa (.serverChange ⟨.create, (1, 1)⟩)
-def w2 := w1.step kk vv aa (.listApplied 1 [(1, 1)])
-def w3 := w2.step kk vv aa (.serverChange ⟨.update, (1, 2)⟩)
-def w4 := w3.step kk vv aa .decode
-def w5 := w4.step kk vv aa .take
-def w6 := w5.step kk vv aa .drop
-
-private theorem w6_facts : w6.ready = true ∧ w6.a = w6.hist.length ∧ w6.lost = [1] ∧
-    lookup 1 w6.items = some ⟨1, (1, 1)⟩ ∧ w6.state kk vv w6.hist.length 1 = some ⟨2, (1, 2)⟩ := by
-  refine ⟨rfl, rfl, rfl, ?_, ?_⟩
-  · decide
-  · decide
-
-private theorem w6_reach : CReach kk vv aa w6 := by
-  have r0 : CReach kk vv aa w0 := CReach.init
-  have r1 : CReach kk vv aa w1 := by
-    refine CReach.step w0 _ r0 ⟨by decide, rfl, ?_⟩
-    intro i ei vi v h; simp [w0] at h
-  have r2 : CReach kk vv aa w2 := by
-    refine CReach.step w1 _ r1 ⟨rfl, by decide, ?_⟩
-    intro k
-    by_cases hk : k = 1
-    · subst hk; decide
-    · have h1 : listedAll kk vv k [((1 : Nat), (1 : Int))] = [] := by
-        have : ¬ (1 = k) := fun h => hk h.symm
-        simp [listedAll, vv, kk, this]
-      have h2 : w1.state kk vv 1 k = none := by
-        simp [w1, w0, CW.step, CW.state, CW.core, World.pcontent, papply, vv, kk, AMap.set]; exact hk
-      rw [h1, h2]
-  have r3 : CReach kk vv aa w3 := by
-    refine CReach.step w2 _ r2 ⟨by decide, rfl, ?_⟩
-    intro i ei vi v h hvi hv
-    have hlen : w2.hist = [⟨.create, (1, 1)⟩] := rfl
-    rw [hlen] at h
-    cases i with
-    | zero =>
-      simp at h; subst h
-      simp [vv] at hvi hv; omega
-    | succ i => simp at h
-  have r4 : CReach kk vv aa w4 := CReach.step w3 _ r3 ⟨rfl, rfl, by decide⟩
-  have r5 : CReach kk vv aa w5 := CReach.step w4 _ r4 ⟨rfl, by decide⟩
-  exact CReach.step w5 _ r5 ⟨rfl, by decide⟩
-
-end Witness
+/-! ### the hypothesis "nothing lost" is needed: an overflow is not repaired by the watch (run: Proofs/CtrlCtrlWitness.lean) -/
 
 /-- **an overflowed change is never recovered by the watch**: a reachable state in which the pipeline is
 drained (a = |history|) and the cache still holds the version before the lost change. (C03: the next relist
 repairs it.) -/
 theorem overflow_breaks_continuity :
-    ∃ w : CW Nat (Nat × Int), CReach Witness.kk Witness.vv Witness.aa w ∧ w.ready = true ∧ w.a = w.hist.length ∧
+    ∃ w : CW Nat (Nat × Int), CReach CtrlWitness.kk CtrlWitness.vv CtrlWitness.aa w ∧ w.ready = true ∧ w.a = w.hist.length ∧
       w.lost ≠ [] ∧
-      lookup 1 w.items ≠ view Witness.aa (w.state Witness.kk Witness.vv w.hist.length 1) := by
-  refine ⟨Witness.w6, Witness.w6_reach, rfl, rfl, by decide, ?_⟩
-  obtain ⟨_, _, _, h1, h2⟩ := Witness.w6_facts
+      lookup 1 w.items ≠ view CtrlWitness.aa (w.state CtrlWitness.kk CtrlWitness.vv w.hist.length 1) := by
+  refine ⟨CtrlWitness.w6, CtrlWitness.w6_reach, rfl, rfl, by decide, ?_⟩
+  obtain ⟨_, _, _, h1, h2⟩ := CtrlWitness.w6_facts
   rw [h1, h2]
   decide
+
+/-- … and the next relist repairs it (C03) -/
+example : (CtrlWitness.w6.step CtrlWitness.kk CtrlWitness.vv CtrlWitness.aa (.listApplied 2 [(1, 2)])).lost = [] ∧
+    lookup 1 (CtrlWitness.w6.step CtrlWitness.kk CtrlWitness.vv CtrlWitness.aa (.listApplied 2 [(1, 2)])).items
+      = some ⟨2, (1, 2)⟩ := by decide
 
 end KC.C04
 
